@@ -434,6 +434,109 @@ class _ConstructCompo:
                     yield 'mass-fractions-with-atom-density:empty-composition', c[3] == []
 
 
+from t4_geom_convert.Kernel.FileHandlers.Writer import WriteT4Composition as _WCOMP
+from t4_geom_convert.Kernel.FileHandlers.Writer import WriteT4GeomComp as _WGC
+
+
+@contract(_WCOMP.writeT4Composition, props=['C08', 'C10', 'C09'], name='WriteT4Composition.writeT4Composition', status='B')
+class _WriteCompo:
+    """The COMPOSITION block: the declared count equals the number of compositions that follow (the void composition
+    m0 included), every composition line declares as many nuclides as follow it, names are m<material>_<density>,
+    kinds and amounts are those constructCompositionT4 returned (its own contract is above) -- including the warned
+    empty composition of mass fractions with an atom density."""
+    scope = '3 cells x 2 materials x 4 densities (negative, positive, near-equal) x live / not live (every other combination)'
+
+    def bounded(tier):
+        k = 0
+        for mats in itertools.product((1, 2), repeat=3):
+            for rhos in itertools.product(('-1.0', '0.05', '-0.9982071', '-0.9982074'), repeat=3):
+                for st in (('live', 'live', 'live'), ('live', 'imp0', 'live'), ('universe', 'filled', 'imp0')):
+                    k += 1
+                    if k % 2:
+                        continue
+                    yield {'mats': mats, 'rhos': rhos, 'states': st}
+
+    def call(mats, rhos, states):
+        import io
+        import warnings
+        import contextlib
+        from t4_geom_convert.Kernel.Composition.CompositionConversionMCNPToT4 import Abundances
+        from t4_geom_convert.Kernel.Composition.EIsotopeNameElementT4 import EIsotopeNameElement as E
+        cards = OrderedDict([(1, Abundances([((E.H, '1'), '2.0'), ((E.O, '016'), '1.0')], True)),
+                             (2, Abundances([((E.FE, '56'), '0.9'), ((E.C, '0'), '0.1')], False))])
+        cells = OrderedDict()
+        for i, (m, r, st) in enumerate(zip(mats, rhos, states), start=1):
+            cells[i] = CellMCNP(str(m), r, None, 0.0 if st == 'imp0' else 1.0, 3 if st == 'universe' else 0,
+                                5 if st == 'filled' else None, (), None, [])
+        orig = CCT4.compositionConversionMCNPToT4
+        CCT4.compositionConversionMCNPToT4 = lambda parser: cards
+        buf = io.StringIO()
+        try:
+            with warnings.catch_warnings(), contextlib.redirect_stdout(io.StringIO()):
+                warnings.simplefilter('ignore')
+                _WCOMP.writeT4Composition(None, cells, buf)
+        finally:
+            CCT4.compositionConversionMCNPToT4 = orig
+        return buf.getvalue()
+
+    def ensures(result, mats, rhos, states):
+        lines = [l for l in result.split('\n') if l.strip()]
+        yield 'block-delimiters', lines[0] == 'COMPOSITION' and lines[-1] == 'END_COMPOSITION'
+        heads = [(i, l.split()) for i, l in enumerate(lines) if l.split()[0] in ('DENSITY', 'POINT_WISE')]
+        yield 'declared-count-is-the-number-of-compositions', lines[1].strip() == str(len(heads))
+        ok = True
+        for n, (i, h) in enumerate(heads):
+            nxt = heads[n + 1][0] if n + 1 < len(heads) else len(lines) - 1
+            ok = ok and int(h[-1]) == nxt - i - 1
+        yield 'every-composition-declares-the-nuclides-that-follow', ok
+        want = []
+        for key in (1, 2):
+            seen = []
+            for m, r, st in zip(mats, rhos, states):
+                if st == 'live' and m == key and r not in seen:
+                    seen.append(r)
+            want += [f'm{key}_{r}' for r in seen]
+        yield 'names-are-material-and-density', [h[2] for _, h in heads] == want + ['m0']
+        yield 'kind-follows-the-sign-of-the-density', all(
+            h[0] == ('DENSITY' if h[2].split('_')[1].startswith('-') else 'POINT_WISE') for _, h in heads[:-1])
+
+
+@contract(_WGC.writeT4GeomComp, props=['C08', 'C09'], name='WriteT4GeomComp.writeT4GeomComp', status='B')
+class _WriteGeomComp:
+    """The GEOMCOMP block: one line per composition that owns a volume, `m<name> <count> <ids>` with as many ids as
+    declared, every non-virtual volume on exactly one line, closed by END_GEOMCOMP."""
+    scope = '3 volumes x (fictive or not) x (own cell | filler provenance) x 3 density triples'
+
+    def bounded(tier):
+        for rhos in _RHO_SETS[:3]:
+            for flags in itertools.product((True, False), repeat=3):
+                for prov in itertools.product((None, 41, 42), repeat=3):
+                    yield {'flags': flags, 'prov': prov, 'rhos': rhos}
+
+    def call(flags, prov, rhos):
+        import io
+        cells = {1: _cell('3', rhos[0]), 2: _cell('3', rhos[1]), 3: _cell('0', None), 41: _cell('7', '0.05'),
+                 42: _cell('3', rhos[2])}
+        vols = OrderedDict()
+        for k, (fl, pr) in enumerate(zip(flags, prov), start=1):
+            vols[k] = VolumeT4([k], [], idorigin=[(pr, 9), (pr, 1)] if pr else None, fictive=fl)
+        buf = io.StringIO()
+        _WGC.writeT4GeomComp(vols, cells, buf)
+        return buf.getvalue()
+
+    def ensures(result, flags, prov, rhos):
+        lines = [l for l in result.split('\n') if l.strip()]
+        yield 'block-delimiters', lines[0] == 'GEOMCOMP' and lines[-1] == 'END_GEOMCOMP'
+        body = [l.split() for l in lines[1:-1]]
+        yield 'counts-match-the-ids', all(int(b[1]) == len(b) - 2 for b in body)
+        listed = [int(x) for b in body for x in b[2:]]
+        real = [k for k, fl in enumerate(flags, start=1) if not fl]
+        yield 'every-real-volume-on-exactly-one-line', sorted(listed) == real
+        names = {1: 'm3_' + rhos[0], 2: 'm3_' + rhos[1], 3: 'm0', 41: 'm7_0.05', 42: 'm3_' + rhos[2]}
+        yield 'under-the-owners-composition', all(
+            b[0] == names[prov[int(x) - 1] if prov[int(x) - 1] else int(x)] for b in body for x in b[2:])
+
+
 def _sweep_c09(tier, seed):
     from harness.sweeps import deck_sweep
     return deck_sweep('C09', tier, seed, families=('level0', 'fill', 'lattice'), n_quick=32, n_thorough=400)
